@@ -6,6 +6,13 @@ Theorems: lean/DaskModel/Props/C28.lean
 Tie:      function level — the SeedSequence of every block task of real Generator constructions (spawn_key,
           entropy, n_children_spawned) vs `runCalls`; RandomState per-block state arrays vs the windows the model
           assigns in one reference MT19937 byte stream; `_choice_validate_params` guard vs `choiceGuard`.
+          History level (section hist) — ONE Generator / RandomState object used for a whole history of calls (nearly
+          every distribution method, choice with/without p and replacement, permutation), identical calls repeated
+          2–3 times in a row: per-block spawn keys, "which arrays share a name", the spawn counter and the number of
+          direct draws from the generator's own bit generator vs `runHist`/`histRS`; names pairwise distinct, output
+          keys disjoint, dask.compute(all) = each compute(), a-b in one graph, successive draws differ, seeded
+          histories reproducible.  Section args — array-valued distribution parameters (NumPy / dask, broadcast,
+          positional / keyword, size=None) with degenerate values: every block receives its own slice.
           API level — same seed ⇒ same names and identical values across recomputation, rebuilt graphs and
           schedulers (sync / threads / processes); unseeded pairs ⇒ distinct names, joint compute = separate
           computes, draws differ; choice(replace=False) ⇒ distinct elements of the population.
@@ -31,7 +38,10 @@ LEVEL_TEXT = (
     "the k-th construction gets the SeedSequence child spawn_key++[n0+Σ earlier blocks+b] — a function of the seed, "
     "the program and b only, hence seeded_reproducible), all_seeds_nodup (no two blocks of any constructions share a "
     "seed), same_generator_names_distinct and unseeded_names_distinct (separate constructions get distinct names, so "
-    "each keeps its own draw when computed together), rs_windows_nodup (RandomState windows), "
+    "each keeps its own draw when computed together), history_names_nodup / successive_identical_calls_distinct / "
+    "rs_names_nodup (one generator object threaded through a whole history of calls incl. choice and interleaved "
+    "permutations: all names pairwise distinct, in particular for identical successive calls), perm_positions_nodup, "
+    "entropy_only_name_collides (refutation of naming by the children's entropy), rs_windows_nodup (RandomState windows), "
     "choice_no_replace_single_chunk (the guard makes multi-chunk replace=False unreachable). NOT expressible/proved: "
     "statistical independence of the streams; 'identical values on every scheduler' is reduced to 'identical graph' "
     "(+ C01) and validated by running sync/threads/processes; distinctness of NumPy's single-block choice is trusted."
@@ -52,6 +62,27 @@ RS_DISTS = {
     "random_sample": {}, "normal": {"loc": 1.0, "scale": 2.0}, "uniform": {"low": -1.0, "high": 3.0}, "standard_normal": {},
     "randint": {"low": 0, "high": 1000}, "poisson": {"lam": 3.0}, "exponential": {"scale": 2.0}, "binomial": {"n": 10, "p": 0.3},
 }
+
+# the history section uses (nearly) every distribution method of both APIs
+GEN_ALL = dict(GEN_DISTS)
+GEN_ALL.update({
+    "chisquare": {"df": 3.0}, "geometric": {"p": 0.3}, "gumbel": {"loc": 0.5, "scale": 2.0}, "laplace": {"loc": 0.0, "scale": 1.5},
+    "logistic": {"loc": 0.0, "scale": 1.5}, "lognormal": {"mean": 0.0, "sigma": 0.5}, "pareto": {"a": 2.5}, "power": {"a": 2.5},
+    "rayleigh": {"scale": 1.5}, "standard_cauchy": {}, "standard_exponential": {}, "standard_gamma": {"shape": 2.0},
+    "standard_t": {"df": 4.0}, "triangular": {"left": 0.0, "mode": 1.0, "right": 3.0}, "vonmises": {"mu": 0.0, "kappa": 1.0},
+    "wald": {"mean": 1.0, "scale": 2.0}, "weibull": {"a": 1.5}, "zipf": {"a": 2.5}, "negative_binomial": {"n": 5, "p": 0.4},
+    "noncentral_chisquare": {"df": 3.0, "nonc": 1.0}, "f": {"dfnum": 3.0, "dfden": 5.0},
+    "noncentral_f": {"dfnum": 3.0, "dfden": 5.0, "nonc": 1.0}, "hypergeometric": {"ngood": 50, "nbad": 60, "nsample": 40},
+    "logseries": {"p": 0.6}, "multinomial": {"n": 50, "pvals": [0.2, 0.3, 0.5]},
+})
+RS_ALL = dict(RS_DISTS)
+RS_ALL.update({k: v for k, v in GEN_ALL.items() if k not in ("random", "integers")})
+RS_ALL.update({"random_integers": {"low": 0, "high": 1000}, "tomaxint": {}})
+# methods whose single draw is (practically) never repeated: two successive draws of >= 6 values must differ
+RICH = {"random", "random_sample", "normal", "uniform", "standard_normal", "integers", "randint", "exponential", "gamma", "beta",
+        "chisquare", "gumbel", "laplace", "logistic", "lognormal", "pareto", "power", "rayleigh", "standard_cauchy",
+        "standard_exponential", "standard_gamma", "standard_t", "triangular", "vonmises", "wald", "weibull",
+        "noncentral_chisquare", "f", "noncentral_f", "random_integers", "tomaxint"}
 
 
 def _da():
@@ -321,7 +352,210 @@ def case_perm(ctx, inp):
     ctx.branch("permutation-" + api)
 
 
-CASES = {"perm": case_perm, "gen_calls": case_gen_calls, "rs_calls": case_rs_calls, "values": case_values, "unseeded": case_unseeded,
+def _hist_build(da, rng, api, op):
+    k = op["kind"]
+    if k == "dist":
+        kw = dict((GEN_ALL if api == "gen" else RS_ALL)[op["dist"]])
+        return getattr(rng, op["dist"])(size=tuple(op["size"]), chunks=tuple(tuple(c) for c in op["chunks"]), **kw)
+    if k == "choice":
+        pop = op["pop"]
+        a = pop if isinstance(pop, int) else da.from_array(np.array(pop), chunks=max(1, len(pop) // 2))
+        n = pop if isinstance(pop, int) else len(pop)
+        p = None
+        if op["p"]:
+            w = np.arange(1, n + 1, dtype=float)
+            p = w / w.sum()
+        return rng.choice(a, size=op["size"], replace=op["replace"], p=p, chunks=(tuple(op["chunks"]),))
+    src = op["n"] if op["from_int"] else da.from_array(np.arange(op["n"]) * 3 - 5, chunks=(tuple(op["chunks"]),))
+    return rng.permutation(src)
+
+
+def _op_ident(op):
+    """(function id, parameter id) as the model sees them: equal for identical calls"""
+    k = op["kind"]
+    if k == "dist":
+        return ("dist", op["dist"]), repr((op["size"], op["chunks"]))
+    return ("choice",), repr((op["pop"], op["size"], op["chunks"], op["replace"], op["p"]))
+
+
+def _rich(api, op, arr_size):
+    k = op["kind"]
+    if k == "dist":
+        return op["dist"] in RICH and arr_size >= 6
+    if k == "choice":
+        n = op["pop"] if isinstance(op["pop"], int) else len(op["pop"])
+        return n >= 9 and op["size"] >= 9
+    return op["n"] >= 9
+
+
+def case_hist(ctx, inp):
+    """ONE Generator / RandomState object used for a whole history of calls, identical calls repeated in a row."""
+    import dask
+    da = _da()
+    api, seed, ops = inp["api"], inp["seed"], inp["ops"]
+    rng = new_rng(da, api, seed)
+    steps = [op for op in ops for _ in range(op["reps"])]
+    arrs = []
+    bitstates = []   # the generator's own bit-generator state / spawn counter after every step
+    init_state = repr(rng._bit_generator.state) if api == "gen" else None
+    for op in steps:
+        arrs.append(_hist_build(da, rng, api, op))
+        if api == "gen":
+            bitstates.append((repr(rng._bit_generator.state), rng._bit_generator._seed_seq.n_children_spawned))
+    names = [a.name for a in arrs]
+    idx_arr = [i for i, op in enumerate(steps) if op["kind"] != "perm"]
+    # ---- names and seeds vs the Lean history model
+    fids, pids, mops = {}, {}, []
+    for op, a in zip(steps, arrs):
+        if op["kind"] == "perm":
+            mops.append(Sym("perm"))
+        else:
+            f, pr = _op_ident(op)
+            nb = math.prod(len(c) for c in a.chunks)
+            mops.append([fids.setdefault(f, len(fids)), nb, pids.setdefault(pr, len(pids))])
+    impl_cls = [[names[j] for j in idx_arr].index(names[i]) for i in idx_arr]
+    if api == "gen":
+        model = ctx.lean(Sym("rnghist"), [], 0, 0, mops)
+        impl_out = []
+        for op, a in zip(steps, arrs):
+            if op["kind"] == "perm":
+                impl_out.append(None)
+            else:
+                pos = 2 if op["kind"] == "dist" else 0
+                ss = [t.args[pos] for t in block_tasks(a)]
+                ss = [x if isinstance(x, np.random.SeedSequence) else x._seed_seq for x in ss]
+                if any(x.entropy != rng._bit_generator._seed_seq.entropy for x in ss):
+                    ctx.fail("a block seed has a different entropy than its generator")
+                impl_out.append([list(x.spawn_key) for x in ss])
+        ctx.eq("history: per-block spawn keys", [m for m, o in zip(model[0], impl_out) if o is not None], [o for o in impl_out if o is not None])
+        ctx.eq("history: which arrays share a name (index of the first array with the same name)", model[1], impl_cls)
+        ctx.eq("history: n_children_spawned after the history", model[2], rng._bit_generator._seed_seq.n_children_spawned)
+        # state threading: a call advances only the spawn counter, a permutation (n >= 2) only the bit generator itself
+        if all(op["n"] >= 2 for op in steps if op["kind"] == "perm"):
+            draws, prev = 0, init_state
+            for op, st, m in zip(steps, bitstates, model[0]):
+                if st[0] != prev:
+                    draws += 1
+                prev = st[0]
+                if op["kind"] == "perm":
+                    ctx.eq("history: stream position consumed by a permutation", m, [Sym("perm"), draws - 1])
+            ctx.eq("history: direct draws from the generator's own bit generator", model[3], draws)
+    else:
+        calls = [m for m in mops if not isinstance(m, Sym)]
+        model = ctx.lean(Sym("rshist"), 0, calls)
+        ctx.eq("history: which arrays share a name (RandomState)", model[1], impl_cls)
+        first_perm = next((i for i, op in enumerate(steps) if op["kind"] == "perm"), len(steps))
+        if seed is not None:
+            pre = [i for i in idx_arr if i < first_perm]
+            total = sum(len(model[0][idx_arr.index(i)]) for i in pre)
+            if total:
+                ref = np.frombuffer(np.random.RandomState(seed).bytes(624 * total * 4), dtype="<u4").reshape((total, -1))
+                for i in pre:
+                    pos = 2 if steps[i]["kind"] == "dist" else 0
+                    tasks = block_tasks(arrs[i])
+                    wins = model[0][idx_arr.index(i)]
+                    if len(tasks) != len(wins):
+                        ctx.disagree("history: number of block tasks", len(wins), len(tasks))
+                        continue
+                    for t, w in zip(tasks, wins):
+                        if not np.array_equal(t.args[pos], ref[w]):
+                            ctx.disagree("history: RandomState block state is not the window the model assigns", w, None)
+                            break
+    # ---- implementation-level consequences
+    solo = [np.asarray(a.compute(scheduler="sync")) for a in arrs]
+    for i in range(len(arrs)):
+        for j in range(i + 1, len(arrs)):
+            if names[i] == names[j]:
+                if steps[i]["kind"] == "perm" and steps[j]["kind"] == "perm" and np.array_equal(solo[i], solo[j]):
+                    continue      # content-addressed: the same shuffled index
+                ctx.fail(f"calls {i} and {j} on one {api} object share a name", observed=[names[i], steps[i], steps[j]])
+            else:
+                ki = set(k for k in arrs[i].__dask_graph__().keys() if isinstance(k, tuple) and k[0] == names[i])
+                kj = set(k for k in arrs[j].__dask_graph__().keys() if isinstance(k, tuple) and k[0] == names[j])
+                if ki & kj:
+                    ctx.fail("two calls on one object share output keys", observed=sorted(map(str, ki & kj))[:4])
+    joint = dask.compute(*arrs, scheduler=inp["sched"])
+    for i, (j, s_) in enumerate(zip(joint, solo)):
+        j = np.asarray(j)
+        if j.shape != s_.shape or not np.array_equal(j, s_):
+            ctx.fail(f"dask.compute(all arrays of the history): array {i} differs from its own compute()",
+                     observed=[steps[i], j.tolist()], expected=s_.tolist())
+    for i in range(len(arrs) - 1):
+        if steps[i] is steps[i + 1]:
+            a, b = arrs[i], arrs[i + 1]
+            if solo[i].shape == solo[i + 1].shape and solo[i].dtype.kind in "iuf":
+                d = np.asarray((a - b).compute(scheduler="sync"))
+                if not np.array_equal(d, solo[i] - solo[i + 1], equal_nan=True):
+                    ctx.fail("a - b of two successive identical calls differs from the difference of their own values",
+                             observed=[steps[i], d.tolist()], expected=(solo[i] - solo[i + 1]).tolist())
+            if _rich(api, steps[i], solo[i].size) and np.array_equal(solo[i], solo[i + 1]):
+                ctx.fail("two successive identical calls on one object produced the same draw", observed=[steps[i], solo[i].tolist()])
+            ctx.branch("repeat:" + (steps[i]["dist"] if steps[i]["kind"] == "dist" else steps[i]["kind"]))
+    # ---- seeded: the whole history is reproducible
+    if seed is not None:
+        rng2 = new_rng(da, api, seed)
+        arrs2 = [_hist_build(da, rng2, api, op) for op in steps]
+        if [a.name for a in arrs2] != names:
+            ctx.fail("same seed and same history give different names", observed=[names, [a.name for a in arrs2]])
+        again = dask.compute(*arrs2, scheduler="threads")
+        for i, (j, s_) in enumerate(zip(again, solo)):
+            if not np.array_equal(np.asarray(j), s_):
+                ctx.fail(f"same seed and same history: array {i} has different values", observed=steps[i])
+        ctx.branch("seeded")
+    else:
+        ctx.branch("unseeded")
+    ctx.branch(api)
+    for op in ops:
+        if op["kind"] == "choice":
+            ctx.branch("choice:" + ("p" if op["p"] else "uniform") + (":replace" if op["replace"] else ":no-replace"))
+
+
+def case_args(ctx, inp):
+    """Array-valued distribution parameters: every block must receive ITS OWN slice of the (broadcast) parameter.
+    Degenerate parameters make the draw deterministic, so the plumbing is checked exactly."""
+    da = _da()
+    api, seed, dist, size, chunks = inp["api"], inp["seed"], inp["dist"], tuple(inp["size"]), tuple(tuple(c) for c in inp["chunks"])
+    L = np.array(inp["param"]["data"], dtype=inp["param"]["dtype"]).reshape(inp["param"]["shape"])
+    P = da.from_array(L, chunks=tuple(tuple(c) for c in inp["param"]["chunks"])) if inp["param"]["dask"] else L
+    rng = new_rng(da, api, seed)
+    kw = {"chunks": chunks}
+    if not inp["size_none"]:
+        kw["size"] = size
+    pos = inp["positional"]
+    want = np.broadcast_to(L, size)
+    try:
+        if dist == "normal":
+            x = rng.normal(P, 0.0, **kw) if pos else rng.normal(loc=P, scale=0.0, **kw)
+        elif dist == "uniform":
+            x = rng.uniform(P, P, **kw) if pos else rng.uniform(low=P, high=P, **kw)
+        elif dist == "binomial":
+            x = rng.binomial(P, 1.0, **kw) if pos else rng.binomial(n=P, p=1.0, **kw)
+        else:
+            f = rng.integers if api == "gen" else rng.randint
+            x = f(P, P + 1, **kw) if pos else f(low=P, high=P + 1, **kw)
+        if tuple(x.shape) != size:
+            ctx.fail(f"{dist} with an array parameter: wrong lazy shape", observed=list(x.shape), expected=list(size))
+            return
+        v = np.asarray(x.compute(scheduler="sync"))
+    except Exception as e:   # noqa: BLE001 — NumPy accepts these calls
+        ctx.fail(f"{dist} with an array parameter raised {type(e).__name__}", observed=str(e)[:300], expected=want.tolist())
+        return
+    if v.shape != want.shape or not np.array_equal(v, want):
+        ctx.fail(f"{dist} with a degenerate array parameter does not reproduce the parameter (a block got another slice)",
+                 observed=v.tolist(), expected=want.tolist())
+    bad = U.joint_vs_solo([x, x + 0])
+    if bad:
+        ctx.fail("array-parameter draw computed jointly differs from solo", observed=bad)
+    if math.prod(len(c) for c in chunks) > 1:
+        ctx.branch("multi-block")
+    if L.shape != size:
+        ctx.branch("broadcast parameter")
+    ctx.branch(("dask" if inp["param"]["dask"] else "numpy") + ("-positional" if pos else "-keyword"))
+    if inp["size_none"]:
+        ctx.branch("size=None")
+
+
+CASES = {"args": case_args, "hist": case_hist, "perm": case_perm, "gen_calls": case_gen_calls, "rs_calls": case_rs_calls, "values": case_values, "unseeded": case_unseeded,
          "choice": case_choice}
 
 
@@ -332,8 +566,64 @@ def _shape_chunks(rng, maxd=3, maxn=6):
     return size, chunks
 
 
+def _gen_hist(rng, n):
+    for _ in range(n):
+        api = rng.choice(["gen", "gen", "rs"])
+        ops = []
+        for _ in range(rng.randint(1, 4)):
+            r = rng.random()
+            if r < 0.5:
+                size, chunks = _shape_chunks(rng, 2, 8)
+                if not size or math.prod(size) < 6:
+                    size = [rng.randint(6, 10)]
+                    chunks = [list(U.rand_chunks_1d(rng, size[0]))]
+                op = {"kind": "dist", "dist": rng.choice(sorted(GEN_ALL if api == "gen" else RS_ALL)), "size": size, "chunks": chunks}
+            elif r < 0.85:
+                pop = rng.randint(9, 14) if rng.random() < 0.6 else rng.sample(range(-30, 30), rng.randint(9, 12))
+                n_ = pop if isinstance(pop, int) else len(pop)
+                replace = rng.random() < 0.5
+                size = rng.randint(9, 12) if replace else rng.randint(9, n_)
+                chunks = list(U.rand_chunks_1d(rng, size)) if replace else [size]
+                op = {"kind": "choice", "pop": pop, "size": size, "chunks": chunks, "replace": replace, "p": rng.random() < 0.4}
+            else:
+                n_ = rng.randint(9, 12)
+                op = {"kind": "perm", "n": n_, "from_int": rng.random() < 0.4, "chunks": list(U.rand_chunks_1d(rng, n_))}
+            op["reps"] = rng.choice([1, 2, 2, 3])
+            ops.append(op)
+        yield "hist", {"api": api, "seed": rng.choice([None, None, rng.randint(0, 2 ** 31)]), "ops": ops,
+                       "sched": rng.choice(["sync", "threads"])}
+
+
+def _gen_args(rng, n):
+    for _ in range(n):
+        api = rng.choice(["gen", "rs"])
+        d = rng.choice([1, 2, 2, 3])
+        size = [rng.randint(1, 5) for _ in range(d)]
+        chunks = [list(U.rand_chunks_1d(rng, k)) for k in size]
+        dist = rng.choice(["normal", "uniform", "binomial", "integers", "integers"])
+        size_none = rng.random() < 0.25
+        r = rng.random()
+        if size_none or r < 0.5:
+            pshape = list(size)
+        elif r < 0.75:
+            pshape = size[-1:]
+        else:
+            pshape = [size[0]] + [1] * (d - 1)
+        cnt = math.prod(pshape)
+        if dist in ("normal", "uniform"):
+            data, dt = [rng.randint(-50, 50) / 4 for _ in range(cnt)], "float64"
+        else:
+            data, dt = [rng.randint(0, 40) for _ in range(cnt)], "int64"
+        yield "args", {"api": api, "seed": rng.randint(0, 2 ** 31), "dist": dist, "size": size, "chunks": chunks,
+                       "size_none": size_none, "positional": rng.random() < 0.5,
+                       "param": {"data": data, "dtype": dt, "shape": pshape, "dask": rng.random() < 0.5,
+                                 "chunks": [list(U.rand_chunks_1d(rng, k)) for k in pshape]}}
+
+
 def generate(ctx):
     rng = ctx.rng
+    yield from _gen_args(rng, ctx.n(160, 1500))
+    yield from _gen_hist(rng, ctx.n(120, 1500))
     for _ in range(ctx.n(200, 2500)):
         calls = []
         for _ in range(rng.randint(1, 4)):
